@@ -115,8 +115,11 @@ var kReserved = map[string]bool{"written_": true, "rest_": true, "i_": true, "ma
 	"goTo": true, "goSub": true, "goPut": true, "goMake": true, "goSetAdd": true, "sortInts": true, "insertInts": true,
 	"goIndexByte": true, "selOk": true}
 
+var kKeywords = map[string]bool{"rec": true, "sorry": true, "unsafe": true, "meta": true, "prelude": true, "macro_rules": true,
+	"at": true, "fun": true, "Σ": true, "λ": true, "nat_lit": true, "scoped": true, "nonrec": true, "run_cmd": true, "id": true}
+
 func kLeanName(n string) string {
-	if leanKeywords[n] || oKeywords[n] {
+	if leanKeywords[n] || oKeywords[n] || kKeywords[n] {
 		return n + "'"
 	}
 	return n
